@@ -8,7 +8,10 @@ package actionlint
 // where, so the oracle is the scope rule of the statement computed over the generated structure.
 
 import (
+	"bytes"
 	"fmt"
+	"os"
+	"path/filepath"
 	"regexp"
 
 	"gopkg.in/yaml.v3"
@@ -55,8 +58,16 @@ func c05Judge(r *vReport, family, desc, src string, refs []c05Ref, ignoreKinds m
 	}
 }
 
+// c05Lint, when set, lints the generated workflow as a file of a repository (project families).
+var c05Lint func(src string) vLintResult
+
 func c05JudgeOne(r *vReport, family, desc, src string, refs []c05Ref) {
-	res := vLint(src, nil)
+	res := vLintResult{}
+	if c05Lint != nil {
+		res = c05Lint(src)
+	} else {
+		res = vLint(src, nil)
+	}
 	r.Evaluations++
 	r.Transitions++
 	r.Validated++
@@ -688,6 +699,83 @@ func c05ExprIDs(r *vReport, idx *int64) {
 	}
 }
 
+// c05NeedsProject: the needed job calls a LOCAL reusable workflow whose declared outputs are known
+// (none, one, two; the event written as a scalar, a sequence or a mapping): exactly the declared
+// outputs are in scope.
+func c05NeedsProject(t *testing.T, r *vReport, idx *int64) {
+	callees := []struct {
+		name string
+		on   string
+		outs []string
+	}{
+		{"scalar-event", "on: workflow_call\n", nil},
+		{"sequence-event", "on: [workflow_call]\n", nil},
+		{"inputs-only", "on:\n  workflow_call:\n    inputs:\n      i:\n        type: string\n", nil},
+		{"empty-outputs", "on:\n  workflow_call:\n    outputs: {}\n", nil},
+		{"one-output", "on:\n  workflow_call:\n    outputs:\n      OutOne:\n        value: x\n", []string{"outone"}},
+		{"two-outputs", "on:\n  workflow_call:\n    inputs:\n      i:\n        type: string\n    outputs:\n      OutOne:\n        value: x\n      out-two:\n        description: d\n        value: y\n", []string{"outone", "out-two"}},
+	}
+	for _, ce := range callees {
+		*idx++
+		if !r.Mine(*idx) {
+			continue
+		}
+		dir := vTempDir(t, "c05p-")
+		vWriteFiles(t, dir, map[string]string{".git/HEAD": "ref: refs/heads/main\n", ".github/workflows/callee.yml": ce.on + "jobs:\n  j:\n    runs-on: ubuntu-latest\n    steps:\n      - run: echo\n"})
+		path := filepath.Join(dir, ".github/workflows/caller.yml")
+		c05Lint = func(src string) (res vLintResult) {
+			defer func() {
+				if p := recover(); p != nil {
+					res.Panic = fmt.Sprintf("%v\n%s", p, vStack())
+				}
+			}()
+			if err := os.WriteFile(path, []byte(src), 0o644); err != nil {
+				res.Err = err
+				return
+			}
+			var out bytes.Buffer
+			l, err := NewLinter(&out, &LinterOptions{WorkingDir: dir})
+			if err != nil {
+				res.Err = err
+				return
+			}
+			res.Errs, res.Err = l.LintFile(path, nil)
+			return
+		}
+		var b strings.Builder
+		line := 1
+		w := func(s string) { b.WriteString(s + "\n"); line++ }
+		var refs []c05Ref
+		w("on: push")
+		w("jobs:")
+		w("  c:")
+		w("    uses: ./.github/workflows/callee.yml")
+		w("  other:")
+		w("    uses: ./.github/workflows/callee.yml")
+		w("  d:")
+		w("    needs: [c]")
+		w("    runs-on: ubuntu-latest")
+		w("    steps:")
+		has := func(n string) bool {
+			for _, o := range ce.outs {
+				if o == n {
+					return true
+				}
+			}
+			return false
+		}
+		for _, n := range []string{"outone", "out-two", "zzundeclared"} {
+			refs = append(refs, c05Ref{line, n, has(n), "needs.<local call>.outputs.<name>"})
+			w("      - run: echo ${{ needs.C.outputs." + strings.ToUpper(n[:1]) + n[1:] + " }}")
+		}
+		refs = append(refs, c05Ref{line, "other", false, "needs.<not needed local call>"})
+		w("      - run: echo ${{ needs.other.outputs.outone }}")
+		w("      - run: echo ${{ needs.c.result }}")
+		c05Judge(r, "needs-local-call", "callee "+ce.name, b.String(), refs, nil)
+		c05Lint = nil
+	}
+}
+
 func TestVerifC05(t *testing.T) {
 	r := vNewReport("C05")
 	defer r.Write(t)
@@ -698,7 +786,7 @@ func TestVerifC05(t *testing.T) {
 	r.Bounds["steps_per_job"] = maxSteps
 	r.Bounds["jobs_steps_family"] = 2
 	r.Bounds["jobs_needs_family"] = 3
-	r.Extra["rule"] = "steps: jobs<=2 x steps<=N x every subset of steps carrying an id x reference in 8 step fields of every step and in job outputs / environment.url x 4 expression shapes (plain; condition of a && b || c; (x || a) && b; !(x && true) && y) x target (each id of either job | undefined); needs: 3 jobs x all 64 edge sets x all 6 file orders x needed job is a step job or a reusable-workflow call, reference to .result and to declared / undeclared outputs from every job; matrix: 10 definitions x {lower-case, mixed-case keys} (rows, include same/new/only, exclude, nested values, row / include / include element / whole matrix by expression) x 7 positions x defined/undefined keys; jobs with a matrix (literal / include-only / expression, step job or reusable-workflow call) next to jobs without that key in both file orders; inputs/secrets/jobs: call x dispatch x declared secrets; step ids given wholly or partly by an expression (6 spellings, reference before / inside / after). oracle = scope rule computed by the generator. class = (family, reference kind, in scope?); non-trivial = out of scope"
+	r.Extra["rule"] = "steps: jobs<=2 x steps<=N x every subset of steps carrying an id x reference in 8 step fields of every step and in job outputs / environment.url x 4 expression shapes (plain; condition of a && b || c; (x || a) && b; !(x && true) && y) x target (each id of either job | undefined); needs: 3 jobs x all 64 edge sets x all 6 file orders x needed job is a step job or a reusable-workflow call, reference to .result and to declared / undeclared outputs from every job; matrix: 10 definitions x {lower-case, mixed-case keys} (rows, include same/new/only, exclude, nested values, row / include / include element / whole matrix by expression) x 7 positions x defined/undefined keys; jobs with a matrix (literal / include-only / expression, step job or reusable-workflow call) next to jobs without that key in both file orders; inputs/secrets/jobs: call x dispatch x declared secrets; step ids given wholly or partly by an expression (6 spellings, reference before / inside / after); needed job = call of a local reusable workflow with 0 / 1 / 2 declared outputs (6 forms, linted inside a repository). oracle = scope rule computed by the generator. class = (family, reference kind, in scope?); non-trivial = out of scope"
 	r.Extra["assumptions"] = []string{"step ids, job ids and keys are referenced in a different letter case than defined (case-insensitivity is part of resolution)", "for cyclic needs graphs only the needs.* verdicts are compared"}
 	if raw := vReplayInput(); raw != nil {
 		var rp struct {
@@ -706,6 +794,13 @@ func TestVerifC05(t *testing.T) {
 			RefList           []c05Ref `json:"ref_list"`
 		}
 		jsonUnmarshal(raw, &rp)
+		if strings.HasPrefix(rp.Family, "needs-local-call") {
+			var n int64
+			c05NeedsProject(t, r, &n)
+			n = 0
+			c05NeedsProject(t, r, &n)
+			return
+		}
 		for k := 0; k < 2; k++ {
 			res := vLint(rp.Src, nil)
 			fmt.Printf("replay %d (%s %s):\n%s\ndiagnostics: %v\n", k, rp.Family, rp.Desc, rp.Src, vDiagStrings(res.Errs))
@@ -733,6 +828,7 @@ func TestVerifC05(t *testing.T) {
 	c05Positions(r, &idx)
 	c05InputsSecrets(r, &idx)
 	c05ExprIDs(r, &idx)
+	c05NeedsProject(t, r, &idx)
 }
 
 // c05Positions: at every non-exempt scalar position of the seeds and of their sibling variations
